@@ -131,7 +131,13 @@ std::string run_history(const History& H, long fail_at, Stats* st, size_t* nallo
             const FitProblem& p = H.fits[op.fitp];
             expect = (!MA.empty || op.kind == FIT_INVALID) ? 1 : 0;
             if (expect == 0) { nextA = Model(); nextA.empty = false; nextA.order = p.order; nextA.knots = p.knots; for (uint32_t d = 0; d < p.ndim; d++) { nextA.elo.push_back(p.knots[d][p.order[d]]); nextA.ehi.push_back(p.knots[d][p.knots[d].size() - p.order[d] - 1]); nextA.period.push_back(0); } nextA.aux = MA.aux; }
-            if (op.kind == FIT_INVALID) { FitProblem q = p; int w = (int)(op.salt % 3); if (w == 0) q.w.push_back(1.0); else if (w == 1) q.knots[0].resize(q.order[0] + 1); else std::reverse(q.knots[0].begin(), q.knots[0].end()); run_fit(A, q, CTable::no_monodim); }
+            if (op.kind == FIT_INVALID) {
+              FitProblem q = p; int w = (int)(op.salt % (gen_version() >= 2 ? 5 : 3)); uint32_t md = CTable::no_monodim;
+              if (w == 0) q.w.push_back(1.0); else if (w == 1) q.knots[0].resize(q.order[0] + 1); else if (w == 2) std::reverse(q.knots[0].begin(), q.knots[0].end());
+              else if (w == 3) md = q.ndim + (uint32_t)((op.salt >> 8) % 3);   // a monotonic dimension that does not exist: the only invalid argument
+              else q.porder[0] = q.order[0] + 1 + (uint32_t)((op.salt >> 8) % 2);  // penalty order above the spline order
+              run_fit(A, q, md);
+            }
             else run_fit(A, p, CTable::no_monodim);
             break; }
           case WRITE_KEY: case WRITE_KEY_BAD: {
